@@ -101,7 +101,7 @@ func VerifC05Nesting() {
 	data := make([]byte, 0, k+2)
 	for i := 0; i < k; i++ {
 		b := vapi.Byte("open")
-		vapi.Assume(b&0x0f == 10 && b>>4 < 15)
+		vapi.Assume(vapi.And(b&0x0f == 10, b>>4 < 15))
 		data = append(data, b)
 	}
 	data = append(data, vapi.Bytes("tail", 2)...)
